@@ -109,7 +109,10 @@ func init() {
 		// issuer validation
 		{ID: "E1.issuer.validate.accept", Fn: "op.ValidateIssuer", P: []string{"issuer", "allowInsecure"}, Kind: "ret ok", Max: 1,
 			Req: []string{`neq($issuer, "")`, "def($u, url.Parse($issuer), 0)", "ok(url.Parse($issuer))", `neq($u.Host, "")`, `eq($u.Scheme, "https") || true(op.devLocalAllowed($u, $allowInsecure))`, "ok(op.ValidateIssuerPath($u))"}},
-		{ID: "E1.issuer.insecure-optin", Fn: "op.devLocalAllowed", P: []string{"u", "allowInsecure"}, Kind: "ret any", Not: "ret(false)", Pat: `ret($u.Scheme == "http")`, Max: 1, Req: []string{"true($allowInsecure)"}},
+		// devLocalAllowed is true exactly when insecure issuers were opted into and the scheme is http (stated on the outcomes:
+		// any boolean spelling is accepted)
+		{ID: "E1.issuer.insecure-optin", Fn: "op.devLocalAllowed", P: []string{"u", "allowInsecure"}, Kind: "ret ok", Req: []string{"true($allowInsecure)", `eq($u.Scheme, "http")`}},
+		{ID: "E1.issuer.insecure-optin.false", Fn: "op.devLocalAllowed", P: []string{"u", "allowInsecure"}, Kind: "ret fail", Req: []string{`false($allowInsecure) || neq($u.Scheme, "http")`}},
 		{ID: "E1.issuer.path.accept", Fn: "op.ValidateIssuerPath", P: []string{"issuer"}, Kind: "ret ok", Max: 1, Req: []string{`eq($issuer.Fragment, "")`, "le(len($issuer.Query()), 0)"}},
 		{ID: "E1.issuer.static", Fn: "op.StaticIssuer$1", P: []string{"allowInsecure"}, Kind: "ret ok", Max: 1, Req: []string{"ok(op.ValidateIssuer($issuer, $allowInsecure))"}},
 		{ID: "E1.issuer.dynamic", Fn: "op.issuerFromForwardedOrHost$1", P: []string{"allowInsecure"}, Kind: "ret ok", Max: 1, Req: []string{"def($p, url.Parse($path), 0)", "ok(url.Parse($path))", "ok(op.ValidateIssuerPath($p))"}},
